@@ -120,7 +120,12 @@ pub fn run(case: &Value, ctx: &Ctx) -> Outcome {
         }
         "reject" => {
             let header = case["header"].as_str().unwrap();
-            let bytes = assemble(1, header, &[0u8; 16]);
+            // the data section has exactly the length the header announces, so that nothing but the dtype / the order can be
+            // the reason for the rejection
+            let descr = case["descr"].as_str().unwrap_or("<f8");
+            let itemsize: usize = descr.chars().filter(|c| c.is_ascii_digit()).collect::<String>().parse().unwrap_or(8);
+            let elements: usize = case["shape"].as_array().map(|a| a.iter().map(|x| x.as_u64().unwrap() as usize).product()).unwrap_or(2);
+            let bytes = assemble(1, header, &(0..elements * itemsize).map(|i| (i % 7) as u8).collect::<Vec<u8>>());
             out.nontrivial = Some(format!("reject/{}", header.trim()));
             match read(&bytes) {
                 Ok(Err(_)) => out.check(true, String::new, || Value::Null),
